@@ -476,7 +476,13 @@ class Gen:
                         default = "1"
                     ps.append((pool[j], default))
                 self.params[n] = ps
+        if self.p("empty_passage"):
+            # a passage with neither text nor choices (an ending); compiled content is empty when no blank line follows
+            self.names.append("TheEnd")
         passages = [self.passage(i) for i in range(self.n)] + [self.hook_passage(h) for h in self.hook_names]
+        if "TheEnd" in self.names:
+            passages.append({"name": "TheEnd", "params": [], "tags": [], "items": [
+                {"k": "stmt", "code": "n_TheEnd = n_TheEnd + 1", "comment": None}], "compact": True})
         inits = [{"k": "stmt", "code": f"jc_{k} = 0", "comment": None} for k in range(1, getattr(self, "njc", 0) + 1)]
         inits += [{"k": "stmt", "code": f"bj_{k} = 0", "comment": None} for k in range(1, getattr(self, "nbj", 0) + 1)]
         passages[0]["items"] = inits + passages[0]["items"]
@@ -590,7 +596,8 @@ def print_story(story, style=None):
             head += " ^" + t
         out.append(head)
         print_items(p["items"], 0, style, out, top=True)
-        out.append("")
+        if not p.get("compact"):
+            out.append("")
     return "\n".join(out)
 
 
